@@ -31,13 +31,18 @@ type cmdIn struct {
 	Metric bool `json:"metric"`
 }
 
-func (famCmdgen) Gen(r *rand.Rand, n int, _ map[string]string) []any {
+func (famCmdgen) Gen(r *rand.Rand, n int, opt map[string]string) []any {
+	// focus=limit (C08): 3-7 containers with interleaved frames, always a positive limit
+	focusLimit := opt["focus"] == "limit"
 	out := make([]any, 0, n)
 	eps, _ := json.Marshal(&ReAST{T: "eps"})
 	for i := 0; i < n; i++ {
 		in := cmdIn{Kind: "cmd", Sel: []matcherIn{}, Stages: []stageIn{}, Start: []int{1700000000, 0}, End: []int{1700000100, 0}, Limit: -1,
 			Opts: []bool{r.Intn(2) == 0, r.Intn(2) == 0, r.Intn(4) == 0}}
 		nc := 1 + r.Intn(4)
+		if focusLimit {
+			nc = 4 + r.Intn(5)
+		}
 		// distinct timestamps over the whole inventory; every frame at least two seconds away from the window's ends
 		slots := r.Perm(60)
 		k := 0
@@ -51,7 +56,11 @@ func (famCmdgen) Gen(r *rand.Rand, n int, _ map[string]string) []any {
 				ctr.LabelKV = append(ctr.LabelKV, [2][]int{B("com.example/role"), B(pick(r, []string{"r", "db"}))})
 			}
 			var secs []int
-			for j := r.Intn(5); j > 0; j-- {
+			nf := r.Intn(5)
+			if focusLimit {
+				nf = 2 + r.Intn(4)
+			}
+			for j := nf; j > 0 && k < len(slots); j-- {
 				s := 1700000003 + slots[k]*3/2
 				k++
 				switch r.Intn(6) {
@@ -127,7 +136,24 @@ func (famCmdgen) Gen(r *rand.Rand, n int, _ map[string]string) []any {
 			}
 		}
 		in.Limit = []int{-1, -1, 1, 2, 3, 5, 100}[r.Intn(7)]
-		if in.Start[0] != in.End[0] && r.Intn(5) == 0 {
+		if focusLimit {
+			// anywhere inside the merged stream (a limit beyond it cuts nothing)
+			total := 0
+			for c := range in.Ctrs {
+				for _, f := range in.Ctrs[c].Frames {
+					if f.TS[0] >= in.Start[0] && f.TS[0] <= in.End[0] {
+						total++
+					}
+				}
+			}
+			in.Limit = 1
+			if total > 2 {
+				in.Limit = 1 + r.Intn(total-1)
+			}
+		}
+		if focusLimit {
+			// (no other window forms, no metric wrapper)
+		} else if in.Start[0] != in.End[0] && r.Intn(5) == 0 {
 			// --end and --since: the window starts `since` before its end; frames closer than two seconds to that start move
 			in.Since = []int{30, 45, 60, 90}[r.Intn(4)]
 			ws := in.End[0] - in.Since
